@@ -4,6 +4,7 @@
 mod c03;
 mod c04;
 mod c05;
+mod c06;
 mod c07;
 mod c08;
 mod c13;
@@ -35,6 +36,7 @@ fn main() {
             "C03" => c03::replay(r),
             "C04" => c04::replay(r),
             "C05" => c05::replay(r),
+            "C06" => c06::replay(r),
             "C13" => c13::replay(r),
             "C07" => c07::replay(r),
             "C08" => c08::replay(r),
@@ -51,6 +53,7 @@ fn main() {
         "C03" => c03::run(tier),
         "C04" => c04::run(tier),
         "C05" => c05::run(tier),
+        "C06" => c06::run(tier),
         "C13" => c13::run(tier),
         "C07" => c07::run(tier),
         "C08" => c08::run(tier),
